@@ -51,7 +51,7 @@ type c02Node struct {
 	Deep int       `json:"deep,omitempty"`
 }
 type c02Attr struct {
-	NS string `json:"ns,omitempty"` // "" unqualified; c02NSXML => xml: prefix; else a declared prefix
+	NS string `json:"ns,omitempty"` // "" unqualified; c02NSXML => xml: prefix; "xmlns" => declaration of prefix L; else a declared prefix
 	L  string `json:"l"`
 	V  string `json:"v"`
 }
@@ -126,6 +126,9 @@ func (e *c02Emit) start(n *c02Node, def string) (tag string, newDef string) {
 			fmt.Fprintf(&e.b, " %s='%s'", a.L, c02EscAttr(a.V))
 		case c02NSXML:
 			fmt.Fprintf(&e.b, " xml:%s='%s'", a.L, c02EscAttr(a.V))
+		case "xmlns":
+			// a prefix declaration whose prefix is a.L (Go: Attr{Name{"xmlns", prefix}, uri})
+			fmt.Fprintf(&e.b, " xmlns:%s='%s'", a.L, c02EscAttr(a.V))
 		default:
 			e.npfx++
 			p := "p" + strconv.Itoa(e.npfx)
@@ -245,7 +248,7 @@ func c02ErrClass(err error) int64 {
 func c02Attrs(code int64, a stanza.Attrs, lang bool) Sx {
 	l := a.Lang
 	if !lang {
-		l = "" // IQ: lang is C01's finding D1; not part of this observation
+		l = ""
 	}
 	return L(Z(code), SBytes(string(a.Type)), SBytes(a.Id), SBytes(a.From), SBytes(a.To), SBytes(l))
 }
@@ -257,7 +260,7 @@ func c02PacketSx(p stanza.Packet) Sx {
 	case stanza.Presence:
 		return c02Attrs(2, v.Attrs, true)
 	case *stanza.IQ:
-		return c02Attrs(3, v.Attrs, false)
+		return c02Attrs(3, v.Attrs, true)
 	case stanza.StreamFeatures:
 		return L(Z(4))
 	case stanza.StreamError:
@@ -560,6 +563,30 @@ func c02Features(n *c02Node) []string {
 			f["illtyped-sm-attr"] = true
 		}
 	}
+	if n.NS == c02NSSM && n.L == "failed" {
+		for i := range n.C {
+			c := &n.C[i]
+			if c.K == 0 && c.NS != c02NSStanzas {
+				for _, cn := range c02Conditions {
+					if cn == c.L {
+						f["failed-condition-foreign-ns"] = true
+					}
+				}
+			}
+		}
+	}
+	if n.L == "iq" {
+		for i := range n.C {
+			c := &n.C[i]
+			if c.K == 0 && c.NS == "http://jabber.org/protocol/commands" && c.L == "command" {
+				for j := range c.C {
+					if x := &c.C[j]; x.K == 0 && x.L == "x" && x.NS != "jabber:x:data" {
+						f["command-foreign-x"] = true
+					}
+				}
+			}
+		}
+	}
 	if n.L == "presence" {
 		for i := range n.C {
 			x := &n.C[i]
@@ -645,9 +672,6 @@ func (c02) Oracle(inp interface{}, obs Sx) (string, string) {
 		}
 		if code <= 3 {
 			want := []string{c02OwnAttr(n, "type"), c02OwnAttr(n, "id"), c02OwnAttr(n, "from"), c02OwnAttr(n, "to"), c02OwnAttr(n, "lang")}
-			if code == 3 {
-				want[4] = ""
-			}
 			names := []string{"type", "id", "from", "to", "lang"}
 			for j := range want {
 				if got := string(bytesOf(o.L[1+j])); got != want[j] {
@@ -670,11 +694,11 @@ func (c02) Oracle(inp interface{}, obs Sx) (string, string) {
 	return "", ""
 }
 
-// c02Sig: signature of a failing shape.  The three recorded finding shapes are named by
+// c02Sig: signature of a failing shape.  The recorded finding shapes are named by
 // their decisive feature alone; everything else by what failed, the element kind and all
 // risky features of the element.
 func c02Sig(what, label, feat string) string {
-	for _, f := range []string{"illtyped-extension", "illtyped-sm-attr", "qualified-attr"} {
+	for _, f := range []string{"illtyped-extension", "illtyped-sm-attr", "command-foreign-x", "failed-condition-foreign-ns"} {
 		for _, x := range strings.Split(feat, "+") {
 			if x == f {
 				return what + ":" + f
@@ -799,7 +823,11 @@ func (g *c02Gen) isKnownChild(kind, ns, l string) bool {
 		}
 		return stanza.TypeRegistry.GetIQExtension(xml.Name{Space: ns, Local: l}) != nil
 	case "sm-failed":
-		return true // every child of <failed/> is interpreted
+		for _, c := range c02Conditions { // listed condition names are interpreted
+			if c == l {
+				return true
+			}
+		}
 	}
 	return false
 }
@@ -868,7 +896,7 @@ func (g *c02Gen) extension(kind string) c02Node {
 	}
 	switch kind {
 	case "message":
-		switch g.r.Intn(9) {
+		switch g.r.Intn(10) {
 		case 0:
 			return extra(c02El("urn:xmpp:receipts", "request"))
 		case 1:
@@ -886,7 +914,7 @@ func (g *c02Gen) extension(kind string) c02Node {
 		case 7:
 			return g.delegation()
 		default:
-			return c02El("urn:xmpp:hints", "store")
+			return g.pubsubEvent()
 		}
 	case "presence":
 		x := c02El(c02NSMuc, "x")
@@ -902,7 +930,7 @@ func (g *c02Gen) extension(kind string) c02Node {
 		}
 		return extra(x)
 	default: // iq
-		switch g.r.Intn(8) {
+		switch g.r.Intn(9) {
 		case 0:
 			return extra(c02El("http://jabber.org/protocol/disco#info", "query", c02El("http://jabber.org/protocol/disco#info", "identity").with("category", "c").with("type", "t"), c02El("http://jabber.org/protocol/disco#info", "feature").with("var", "v")))
 		case 1:
@@ -918,9 +946,96 @@ func (g *c02Gen) extension(kind string) c02Node {
 		case 6:
 			return g.delegation()
 		default:
-			return c02El("jabber:iq:version", "query")
+			if g.r.Intn(2) == 0 {
+				return g.pubsubOwner()
+			}
+			return g.command()
 		}
 	}
+}
+
+const (
+	c02NSEvent    = "http://jabber.org/protocol/pubsub#event"
+	c02NSOwner    = "http://jabber.org/protocol/pubsub#owner"
+	c02NSCommands = "http://jabber.org/protocol/commands"
+)
+
+// trap: an unknown element holding an element named like `same` (and like a known child)
+func (g *c02Gen) trap(same c02Node, knownChild string) c02Node {
+	u := c02El([]string{"u", "urn:x:y", same.NS}[g.r.Intn(3)], []string{"y", "wrap", "zz"}[g.r.Intn(3)], same)
+	if knownChild != "" && g.r.Intn(2) == 0 {
+		u.C = append(u.C, c02El(same.NS, knownChild))
+	}
+	if g.r.Intn(3) == 0 {
+		u.C = append([]c02Node{g.text()}, u.C...)
+	}
+	return u
+}
+
+// pubsubEvent (message): PubSubEvent.UnmarshalXML
+func (g *c02Gen) pubsubEvent() c02Node {
+	ev := c02El(c02NSEvent, "event")
+	switch g.r.Intn(5) {
+	case 0:
+		ev.C = append(ev.C, c02El(c02NSEvent, "items", c02El(c02NSEvent, "item", c02El("u", "payload", c02El(c02NSEvent, "event"), c02El(c02NSEvent, "items"))).with("id", "i1")).with("node", "n"))
+	case 1:
+		ev.C = append(ev.C, c02El(c02NSEvent, "purge").with("node", "n"))
+	case 2:
+		ev.C = append(ev.C, c02El(c02NSEvent, "delete", c02El(c02NSEvent, "redirect").with("uri", "xmpp:x")).with("node", "n"))
+	case 3:
+		ev.C = append(ev.C, c02El(c02NSEvent, "subscription").with("node", "n").with("jid", "a@b").with("subscription", "subscribed"))
+	}
+	for k := g.r.Intn(3); k > 0; k-- {
+		t := g.trap(c02El(c02NSEvent, "event"), []string{"items", "purge", "delete", ""}[g.r.Intn(4)])
+		if g.r.Intn(2) == 0 {
+			ev.C = append([]c02Node{t}, ev.C...)
+		} else {
+			ev.C = append(ev.C, t)
+		}
+	}
+	return ev
+}
+
+// pubsubOwner (iq): PubSubOwner.UnmarshalXML
+func (g *c02Gen) pubsubOwner() c02Node {
+	o := c02El(c02NSOwner, "pubsub")
+	switch g.r.Intn(5) {
+	case 0:
+		o.C = append(o.C, c02El(c02NSOwner, "configure", c02El("jabber:x:data", "x", c02El("jabber:x:data", "field").with("var", "FORM_TYPE")).with("type", "form")).with("node", "n"))
+	case 1:
+		o.C = append(o.C, c02El(c02NSOwner, "delete", c02El(c02NSOwner, "redirect").with("uri", "xmpp:x")).with("node", "n"))
+	case 2:
+		o.C = append(o.C, c02El(c02NSOwner, "affiliations", c02El(c02NSOwner, "affiliation").with("jid", "a@b").with("affiliation", "owner")).with("node", "n"))
+	case 3:
+		o.C = append(o.C, c02El(c02NSOwner, "purge").with("node", "n"))
+	}
+	for k := g.r.Intn(3); k > 0; k-- {
+		t := g.trap(c02El(c02NSOwner, "pubsub"), []string{"configure", "delete", "purge", ""}[g.r.Intn(4)])
+		if g.r.Intn(2) == 0 {
+			o.C = append([]c02Node{t}, o.C...)
+		} else {
+			o.C = append(o.C, t)
+		}
+	}
+	return o
+}
+
+// command (iq): Command.UnmarshalXML
+func (g *c02Gen) command() c02Node {
+	c := c02El(c02NSCommands, "command").with("node", "n").with("action", "execute")
+	if g.r.Intn(2) == 0 {
+		c.C = append(c.C, c02El(c02NSCommands, "actions", c02El(c02NSCommands, "next")).with("execute", "next"))
+	}
+	if g.r.Intn(2) == 0 {
+		c.C = append(c.C, c02El(c02NSCommands, "note", c02Txt("hello")).with("type", "info"))
+	}
+	if g.r.Intn(2) == 0 {
+		c.C = append(c.C, c02El("jabber:x:data", "x", c02El("jabber:x:data", "title", c02Txt("t")), c02El("u", "y", c02El("jabber:x:data", "x"), c02El(c02NSCommands, "command"))).with("type", "form"))
+	}
+	for k := g.r.Intn(3); k > 0; k-- {
+		c.C = append(c.C, g.trap(c02El(c02NSCommands, "command"), []string{"actions", "note", ""}[g.r.Intn(3)]))
+	}
+	return c
 }
 
 func (g *c02Gen) delegation() c02Node {
@@ -969,6 +1084,35 @@ func (g *c02Gen) stanzaAttrs(n c02Node, kind string) c02Node {
 	}
 	if g.r.Intn(4) == 0 {
 		n = n.with("foo", g.val())
+	}
+	if g.r.Intn(3) == 0 {
+		// look-alikes that must NOT be read: p:id, xmlns:id, q:lang ...; and an unqualified
+		// lang next to xml:lang (both are read, the later one wins)
+		names := []string{"type", "id", "from", "to", "lang"}
+		for k := 1 + g.r.Intn(3); k > 0; k-- {
+			l := names[g.r.Intn(len(names))]
+			switch g.r.Intn(4) {
+			case 0:
+				dup := false
+				for _, a := range n.A {
+					dup = dup || (a.NS == "xmlns" && a.L == l)
+				}
+				if !dup {
+					n.A = append(n.A, c02Attr{NS: "xmlns", L: l, V: "urn:decl:" + l})
+				}
+			case 1:
+				has := false
+				for _, a := range n.A {
+					has = has || (a.NS == "" && a.L == "lang")
+				}
+				if !has {
+					n.A = append(n.A, c02Attr{L: "lang", V: "xx"})
+				}
+			default:
+				n.A = append(n.A, c02Attr{NS: fmt.Sprintf("urn:q:%d", len(n.A)), L: l, V: "other-" + l})
+			}
+		}
+		hist("attrs:qualified-lookalikes")
 	}
 	g.r.Shuffle(len(n.A), func(i, j int) { n.A[i], n.A[j] = n.A[j], n.A[i] })
 	return n
@@ -1111,11 +1255,19 @@ func (g *c02Gen) top(component bool) c02Node {
 	case x == 18:
 		f := c02El(c02NSSM, "failed")
 		if g.r.Intn(2) == 0 {
-			f = f.with("h", "2")
+			f = f.with("h", []string{"2", "x", "", "-1", " 3"}[g.r.Intn(5)])
 		}
-		for k := g.r.Intn(3); k > 0; k-- {
-			if g.r.Intn(3) == 0 {
+		for k := g.r.Intn(4); k > 0; k-- {
+			switch g.r.Intn(4) {
+			case 0:
 				f.C = append(f.C, g.text())
+				continue
+			case 1:
+				// not a listed condition: skipped since D23 was repaired
+				f.C = append(f.C, c02El(c02NSStanzas, []string{"item-not-found", "feature-not-implemented"}[g.r.Intn(2)], c02El(c02NSSM, "failed")))
+				continue
+			case 2:
+				f.C = append(f.C, g.unknown("sm-failed", 0))
 				continue
 			}
 			c := c02El(c02NSStanzas, c02Conditions[g.r.Intn(len(c02Conditions))])
@@ -1202,6 +1354,18 @@ func (g *c02Gen) probe(kind int) c02In {
 		in.Items = []c02Node{c02El(c02NSClient, "iq", c02El("urn:xmpp:delegation:1", "delegation", c02El("urn:xmpp:forward:0", "forwarded", c02El("u", "x", c02El("urn:xmpp:forward:0", "forwarded"))))).with("id", "1").with("type", "set"), after}
 	case 6: // a history element nested below the MUC history (local name matches in any namespace)
 		in.Items = []c02Node{c02El(c02NSClient, "presence", c02El(c02NSMuc, "x", c02El(c02NSMuc, "history", c02El("u", "y", c02El(c02NSMuc, "history"))).with("maxstanzas", "1"))), after}
+	case 7: // PubSubEvent: same-named descendant below an unknown child (fixed by ac3889a)
+		in.Items = []c02Node{c02El(c02NSClient, "message", c02El(c02NSEvent, "event", c02El("u", "x", c02El(c02NSEvent, "event")))), c02El(c02NSClient, "presence")}
+	case 8: // PubSubOwner: the same (fixed by ac3889a)
+		in.Items = []c02Node{c02El(c02NSClient, "iq", c02El(c02NSOwner, "pubsub", c02El("u", "x", c02El(c02NSOwner, "pubsub")))).with("id", "1").with("type", "result"), after}
+	case 9: // Command: the same (consumes unknown children as Node: not affected)
+		in.Items = []c02Node{c02El(c02NSClient, "iq", c02El(c02NSCommands, "command", c02El("u", "y", c02El(c02NSCommands, "command")))).with("id", "1").with("type", "set"), after}
+	case 10: // Command: an <x/> that is not a data form
+		in.Items = []c02Node{c02El(c02NSClient, "iq", c02El(c02NSCommands, "command", c02El("u", "x"))).with("id", "1").with("type", "set"), after}
+	case 11: // <failed/>: a listed condition name in another namespace
+		in.Items = []c02Node{c02El(c02NSSM, "failed", c02El("u", "conflict")), after}
+	case 12: // <failed h='x'> with an unlisted condition holding a nested <failed/>
+		in.Items = []c02Node{c02El(c02NSSM, "failed", c02El(c02NSStanzas, "item-not-found", c02El(c02NSSM, "failed"))).with("h", "x"), after}
 	case 5: // body below an unknown child
 		in.Items = []c02Node{c02El(c02NSClient, "message", c02El(c02NSClient, "body", c02Txt("real")), c02El("u", "x", c02El(c02NSClient, "body", c02Txt("fake")))).with("id", "b"), after}
 	}
@@ -1218,7 +1382,7 @@ func (c02) Gen(r *rand.Rand, tier string) []interface{} {
 	}
 	var out []interface{}
 	out = append(out, c02In{Mode: "stream", Closed: true}, c02In{Mode: "stream"}, c02In{Mode: "stream", Component: true, Closed: true})
-	for k := 0; k < 7; k++ {
+	for k := 0; k < 13; k++ {
 		for rep := 0; rep < 3; rep++ {
 			out = append(out, g.probe(k))
 		}
